@@ -60,10 +60,10 @@ def npoints_of(p: int, big: bool) -> int:
     return (4000 if big else 6) + int(p)
 
 
-def make_payload(p: int, fid: int, big: bool = False, missing: str | None = None, extras: bool | str = False):
+def make_payload(p: int, fid: int, big: bool = False, missing: str | None = None, extras: bool | str = False, oversize: bool = False):
     """Deterministic trajectory for payload id p; every field distinct per p."""
     _, Trajectory, *_ = _aeic()
-    n = npoints_of(p, big)
+    n = npoints_of(p, big) * (3 if oversize else 1)   # 3 x 450 kB: larger than the whole 1 MB cache of the pressure tier
     fieldsets = None
     if extras:
         _register_extras()
@@ -206,6 +206,8 @@ class StoreRunner:
                     t = make_payload(9, 99 if has_ids else 0, self.big, missing='vm' if self.extras else 'total_fuel_mass', extras=self.extras)
                 elif arg == 'missing_required_foreign':
                     t = make_payload(9, 99 if has_ids else 0, self.big, missing='starting_mass', extras=not self.extras)
+                elif arg == 'oversized':
+                    t = make_payload(9, 99 if has_ids else 0, self.big, extras=self.extras, oversize=True)
                 elif arg == 'fieldset_mismatch':
                     t = make_payload(9, 99 if has_ids else 0, self.big, extras=not self.extras)
                 elif arg == 'fieldset_redefined':
